@@ -60,7 +60,7 @@ _SUB = []
 
 
 def checker_for(k):
-    if k % 2 == 1:
+    if k >= 1:
         # a user's subclass with a registry of its own: its instances are still independent objects
         if not _SUB:
             _SUB.append(type("OwnRegistryChecker", (impl.jsonschema.FormatChecker,), {"checkers": {}}))
